@@ -38,7 +38,9 @@ Print Assumptions C10_status_rules.
 
 (* (b) what Open does in each status, for a regular file (definitional, stated as theorems):
    hit / local: the layer's Open, the base is not called after cacheStatus;
-   stale / miss: copyToLayer, then the layer's Open (the handle reads the fresh copy). *)
+   stale / miss: CacheOnReadFs.copyToLayer [cache_copy_to_layer], then the layer's Open (the handle reads the
+   fresh copy).  cache_copy_to_layer (since the fix, switch cache_copy_dir_mkdir) Stats the base first: a
+   directory is created in the layer, anything else goes to Union's copyToLayer — see C10_cache_copy below. *)
 Theorem C10_open_by_status :
   forall (B L : Type) (bstep : B -> op -> B * res) (lstep : L -> op -> L * res) (dur now : Z) (sb : B) (sl : L)
          (tbl : list chandle) (p : str) (sb1 : B) (sl1 : L),
@@ -48,7 +50,7 @@ Theorem C10_open_by_status :
      cache_step bstep lstep dur now (sb, sl, tbl) (Open p) = open_layer lstep sb1 sl1 tbl (Open p)) /\
   (forall f, cache_status bstep lstep dur now sb sl p = (sb1, sl1, CStale, Some f, None) -> fi_dir f = false ->
      cache_step bstep lstep dur now (sb, sl, tbl) (Open p) =
-     match copy_to_layer bstep lstep sb1 sl1 p with
+     match cache_copy_to_layer bstep lstep sb1 sl1 p with
      | (sb3, sl2, Some ce) => ((sb3, sl2, tbl), RErr ce)
      | (sb3, sl2, None) => open_layer lstep sb3 sl2 tbl (Open p)
      end) /\
@@ -57,7 +59,7 @@ Theorem C10_open_by_status :
      match bstep sb1 (Stat p) with
      | (sb2, RInfo bfi) =>
        if fi_dir bfi then open_base bstep sb2 sl1 tbl (Open p)
-       else match copy_to_layer bstep lstep sb2 sl1 p with
+       else match cache_copy_to_layer bstep lstep sb2 sl1 p with
             | (sb3, sl2, Some ce) => ((sb3, sl2, tbl), RErr ce)
             | (sb3, sl2, None) => open_layer lstep sb3 sl2 tbl (Open p)
             end
@@ -71,6 +73,30 @@ Proof.
   - now apply open_miss with (fi := fi).
 Qed.
 Print Assumptions C10_open_by_status.
+
+(* CacheOnReadFs.copyToLayer, over ARBITRARY inner filesystems: a base directory is created in the layer with
+   the base's permission bits and nothing is copied; for anything that is not a directory (a regular file, or a
+   base Stat that fails) it is Union's copyToLayer on the base state the Stat left.
+   Depends on cache_copy_dir_mkdir = 1 (CacheProof.cache_copy_dir_mkdir_is_1). *)
+Theorem C10_cache_copy :
+  forall (B L : Type) (bstep : B -> op -> B * res) (lstep : L -> op -> L * res) (sb : B) (sl : L) (name : str),
+  (forall sb1 fi, bstep sb (Stat name) = (sb1, RInfo fi) -> fi_dir fi = true ->
+     cache_copy_to_layer bstep lstep sb sl name =
+     match lstep sl (MkdirAll name (Z.land (fi_mode fi) 511)) with
+     | (sl1, ROk) => (sb1, sl1, None)
+     | (sl1, r) => (sb1, sl1, Some (err_of r))
+     end) /\
+  (forall sb1 fi, bstep sb (Stat name) = (sb1, RInfo fi) -> fi_dir fi = false ->
+     cache_copy_to_layer bstep lstep sb sl name = copy_to_layer bstep lstep sb1 sl name) /\
+  ((forall fi, snd (bstep sb (Stat name)) = RInfo fi -> fi_dir fi = false) ->
+     cache_copy_to_layer bstep lstep sb sl name = copy_to_layer bstep lstep (fst (bstep sb (Stat name))) sl name).
+Proof.
+  intros. split; [|split]; intros.
+  - now apply cache_copy_dir.
+  - now apply cache_copy_file with (fi := fi).
+  - now apply cache_copy_not_dir.
+Qed.
+Print Assumptions C10_cache_copy.
 
 (* a handle that came from the layer: every method is the layer's; the base is never called *)
 Theorem C10_cached_handle_reads_layer :
@@ -96,6 +122,28 @@ Theorem C10_first_read :
     ndir nl = false /\ ndata nl = ndata nb /\ nmtime nl = nmtime nb /\ fs_view sb' = fs_view sb.
 Proof. exact first_read. Qed.
 Print Assumptions C10_first_read.
+
+(* the same for the copy as the cache issues it (cache_copy_to_layer: on MemMapFs the preceding Stat of a regular
+   base file only ticks the clock, [fs_view] unchanged, and Union's copyToLayer follows) *)
+Theorem C10_first_read_through_cache :
+  forall (sb sl : mst) (name : str) (fb : nat) (nb : node) (sb' sl' : mst),
+  lookup sb (normalize_path name) = Some fb -> get_node sb fb = Some nb -> ndir nb = false ->
+  layer_ready sl name ->
+  cache_copy_to_layer m_step m_step sb sl name = (sb', sl', None) ->
+  exists fl nl, lookup sl' (normalize_path name) = Some fl /\ get_node sl' fl = Some nl /\
+    ndir nl = false /\ ndata nl = ndata nb /\ nmtime nl = nmtime nb /\ fs_view sb' = fs_view sb.
+Proof. exact first_read_cache. Qed.
+Print Assumptions C10_first_read_through_cache.
+
+Theorem C10_first_read_through_cache_succeeds :
+  forall (sb sl : mst) (name : str) (fb : nat) (nb : node),
+  lookup sb (normalize_path name) = Some fb -> get_node sb fb = Some nb -> ndir nb = false ->
+  snd (dir_prep sl name) = None -> CreateOK (fst (dir_prep sl name)) name ->
+  exists sb' sl' fl nl, cache_copy_to_layer m_step m_step sb sl name = (sb', sl', None) /\
+    lookup sl' (normalize_path name) = Some fl /\ get_node sl' fl = Some nl /\
+    ndir nl = false /\ ndata nl = ndata nb /\ nmtime nl = nmtime nb /\ fs_view sb' = fs_view sb.
+Proof. exact cache_copy_correct. Qed.
+Print Assumptions C10_first_read_through_cache_succeeds.
 
 (* ... and under the same hypothesis the copy cannot fail once the directory preparation succeeded *)
 Theorem C10_first_read_succeeds :
